@@ -335,6 +335,9 @@ pub fn machine_level(ctx: &Ctx) {
         ("ldir-contended@8000", 0x8000, vec![0x21, 0x00, 0x60, 0x11, 0x00, 0x70, 0x01, 0x40, 0x00, 0xED, 0xB0, 0x18, 0xF3], 0x3F),
         ("in-out-contended-ports@6000", 0x6000, vec![0x01, 0xFF, 0x7F, 0xED, 0x78, 0xED, 0x79, 0x01, 0xFE, 0x40, 0xED, 0x78, 0x18, 0xF2], 0x3F),
         ("indexed@6000", 0x6000, vec![0xDD, 0x21, 0x00, 0x61, 0xDD, 0x34, 0x05, 0xDD, 0xCB, 0x05, 0x06, 0x18, 0xF5], 0x3F),
+        // a CPU waiting in HALT (interrupts off: it stays there) in uncontended and in contended RAM
+        ("di-halt@8000", 0x8000, vec![0xF3, 0x76], 0x3F),
+        ("di-halt@6000", 0x6000, vec![0xF3, 0x76], 0x3F),
     ];
     let jobs: Vec<(bool, usize)> = [false, true].iter().flat_map(|m| (0..programs.len()).map(move |i| (*m, i))).collect();
     par_for(jobs.len(), 1, |j| {
@@ -674,7 +677,7 @@ pub fn run(tier: Tier, seed: u64, replay: Option<String>) -> i32 {
     size_family(&ctx, tier.is_thorough());
     ear_on_every_even_port(&ctx);
     ctx.finish(
-        "component level: for each tape, every reachable state of the real Tap under all partitions of time into process_clocks steps 0..=16 (search decomposed at state-machine reload events; convergence of all paths at each reload is re-checked on every exit transition); oracle: RefTape decoder on the pulse list (pilot counts, sync, MSB-first bits, pause, decoded bytes == TAP blocks) and nominal <= pulse <= nominal+32 on every edge transition; block-size family: two-block tapes over every relation of the block sizes to the 128-byte read window (1..512 bytes) played in fixed steps (through whole-read and short-read assets) and decoded strictly; machine level: idle/polling programs over contended and uncontended bus cycles with the EAR level sampled after every instruction, real-time ROM loads against RefLdBytes, three back-to-back ROM loader calls against a playing deck with fast loading disabled and enabled (every block must pass over EAR as one burst of the right number of pulses and land in memory), and bit 6 of IN from 256 high bytes x 4 even low bytes at both tape levels. distinct = distinct (pulse kind, extreme duration) and waveform outcomes",
+        "component level: for each tape, every reachable state of the real Tap under all partitions of time into process_clocks steps 0..=16 (search decomposed at state-machine reload events; convergence of all paths at each reload is re-checked on every exit transition); oracle: RefTape decoder on the pulse list (pilot counts, sync, MSB-first bits, pause, decoded bytes == TAP blocks) and nominal <= pulse <= nominal+32 on every edge transition; block-size family: two-block tapes over every relation of the block sizes to the 128-byte read window (1..512 bytes) played in fixed steps (through whole-read and short-read assets) and decoded strictly; machine level: idle/polling programs and a halted CPU over contended and uncontended bus cycles with the EAR level sampled after every instruction, real-time ROM loads against RefLdBytes, three back-to-back ROM loader calls against a playing deck with fast loading disabled and enabled (every block must pass over EAR as one burst of the right number of pulses and land in memory), and bit 6 of IN from 256 high bytes x 4 even low bytes at both tape levels. distinct = distinct (pulse kind, extreme duration) and waveform outcomes",
         true,
         &["hook H3: Tap clone + verif_state (all fields)", "time is measured at call ends (when a reader could first observe the level)"],
     )
